@@ -107,13 +107,19 @@ def _alloc_history(ctx, res, rng, job):
         d = rng.choice(days)
         name = f"day{rnd}.zo"
         n = rng.randint(1, 3)
-        (zdir / name).write_text(f"# Log {d.isoformat()}\n\n" + "".join(f"- entry {rnd}.{i}\n" for i in range(n)))
+        ff = "\x0c\n" if rng.random() < 0.5 else ""   # a page-break character on a line of its own: no line end for the grammar
+        (zdir / name).write_text(f"# Log {d.isoformat()}\n\n" + ff + "".join(f"- entry {rnd}.{i}\n" for i in range(n)))
         cmd = ("db", "create") if rnd == 0 or rng.random() < 0.6 else ("db", "reindex")
         Z.clear_engine_cache()
         rc, _, _ = Z.zorg_main(zdir, *cmd, config=cfg)
         res.evaluations += 1
         if rc != 0:
             res.notes.append(f"allocation history: {cmd} failed rc={rc}")
+            return None
+        page_lines = (zdir / name).read_text().split("\n")
+        unz = [l for l in page_lines if l.startswith("- entry") ]
+        if unz:
+            res.failures.append(C.Failure(f"after {' '.join(cmd)} the note {unz[0]!r} of {name} carries no ZID (page: {page_lines[:6]})", {"kind": "history_no_zid", "page": page_lines[:8]}))
             return None
         new = [z for z in zids_now() if z not in handed and z != "200101#00"]
         dup = [z for z in new if new.count(z) > 1]
